@@ -51,7 +51,7 @@ def check(ctx):
     ok = bool(find("args2, collections = unzip(map(unpack_collections, args), 2)", cf)) and bool(find("dask_kwargs, collections2 = unpack_collections(kwargs)", cf))
     ctx.ob("TOKFLOW.call.same-inputs", cf, "the task's args/kwargs are the unpacked args/kwargs that were tokenized", ok)
     # kwargs popped before tokenizing are exactly the control keywords
-    pops = sorted(const(c.args[0]) for c in calls(cf, "pop") if unparse(c.func.value) == "kwargs" and c.args)
+    pops = sorted(const(c.args[0]) for c in calls(cf, "pop") if eqv(c.func.value, "kwargs") and c.args)
     ok = pops == ["dask_key_name", "pure"] and all(dominates(cf, c, tok[0]) for c in calls(cf, "pop")) if tok else False
     ctx.ob("TOKFLOW.call.control-kwargs", cf, "only dask_key_name and pure are removed from kwargs (before naming)", ok, f"popped {pops}")
     ok = (all(Pat("Delayed(name, graph, length=nout)").match(r.value) is not None for r in returns(cf)) and bool(returns(cf))) and bool(find("graph = HighLevelGraph.from_collections(name, {name: task}, dependencies=collections)", cf))
@@ -121,7 +121,7 @@ def check(ctx):
     ctx.ob("ALG.operators.dunder-from-name", bo, "dunder names derive from op.__name__ (and_/or_ stripped, inv -> invert)", ok)
     ok = bool(find("setattr(cls, meth, cls._get_binary_operator(op))", bo)) and bool(find("setattr(cls, rmeth, cls._get_binary_operator(op, inv=True))", bo)) and bool(find("setattr(cls, meth, cls._get_unary_operator(op))", bo))
     ctx.ob("ALG.operators.bind", bo, "__op__ <- op; __rop__ <- op with inv=True; unary <- op", ok)
-    un = [n for n in ast.walk(bo) if isinstance(n, ast.Compare) and unparse(n.left) == "name" and isinstance(n.comparators[0], ast.Tuple)]
+    un = [n for n in ast.walk(bo) if isinstance(n, ast.Compare) and eqv(n.left, "name") and isinstance(n.comparators[0], ast.Tuple)]
     sets = [set(const(e) for e in n.comparators[0].elts) for n in un]
     ok = UNARY in sets and NO_REFLECT in sets
     ctx.ob("ALG.operators.classes", bo, "unary = {abs, invert, neg, pos}; not reflected = comparisons and getitem", ok, f"{sets}")
@@ -140,7 +140,7 @@ def check(ctx):
     ys = [n for n in ast.walk(it) if isinstance(n, ast.Yield)]
     ok = len(ys) == 1 and Pat("self[i]").match(ys[0].value) is not None
     loops = [l for l in walk_no_nested(it) if isinstance(l, ast.For)]
-    ok = ok and len(loops) == 1 and Pat("range(self._length)").match(loops[0].iter) is not None and unparse(loops[0].target) == "i"
+    ok = ok and len(loops) == 1 and Pat("range(self._length)").match(loops[0].iter) is not None and eqv(loops[0].target, "i")
     ctx.ob("CNT.iter", it, "for i in range(self._length): yield self[i]", ok)
     ok = any(isinstance(n, ast.Raise) and has_fact(inline_facts(it, n), "self._length is None", True) is not None for n in ast.walk(it))
     ctx.ob("CNT.iter.unknown-length", it, "unspecified length is not iterable", ok)
@@ -151,7 +151,7 @@ def check(ctx):
     ctx.ob("TAB.containers.type-nested", du, "unpack_collections rebuilds tuples/sets with their own type at every nesting level (not only at the top, where _return_collections is true)", ok, "" if ok else "tuples/sets nested inside other containers or keyword arguments come back as lists")
     pp = find("pure = kwargs.pop('pure', pure)", cf)
     tk_ = [c for c in calls(cf, "tokenize")]
-    ok = len(pp) == 1 and bool(tk_) and all(dominates(cf, pp[0][0], enclosing_stmt(c)) for c in tk_) and not [a for a in walk_no_nested(cf) if isinstance(a, ast.Assign) and unparse(a.targets[0]) == "pure" and a is not pp[0][0]]
+    ok = len(pp) == 1 and bool(tk_) and all(dominates(cf, pp[0][0], enclosing_stmt(c)) for c in tk_) and not [a for a in walk_no_nested(cf) if isinstance(a, ast.Assign) and eqv(a.targets[0], "pure") and a is not pp[0][0]]
     ctx.ob("EFFECT.pure.per-call-wins", cf, "call_function: pure = kwargs.pop('pure', pure) -- the per-call keyword overrides the wrapper's setting, before the key is formed", ok, "" if ok else "a per-call pure= no longer overrides the setting the function was wrapped with: calls requested impure share one key (or pure ones get random keys)")
     dc = mod.func("Delayed.__call__")
     ok = bool(find("func = delayed(apply, pure=pure)", dc)) and all(unparse(r.value).startswith("func(self, args, kwargs") for r in returns(dc))
